@@ -320,3 +320,61 @@ Proof.
   - apply (zsh_display_free LF); [auto|left; reflexivity|left; reflexivity].
   - apply (zsh_value_free LF); [auto|left; reflexivity].
 Qed.
+
+(* ---------- exactly one record per candidate: the tag groups partition the candidates ---------- *)
+From CV Require Import Proofs.Determinism.
+Fixpoint ssorted (l : list str) : Prop :=
+  match l with [] => True | x :: l' => (forall y, In y l' -> str_ltb x y = true) /\ ssorted l' end.
+Lemma insert_str_sorted s l : ssorted l -> ssorted (insert_str s l).
+Proof.
+  induction l as [|x l IH]; intro H; cbn [insert_str].
+  - split; [intros y []|exact I].
+  - destruct H as [Hx Hl]. destruct (str_eqb s x) eqn:E; [split; assumption|].
+    destruct (str_ltb s x) eqn:L.
+    + split; [|split; assumption]. intros y [<-|Hy]; [exact L|]. apply (str_ltb_trans s x y L). apply Hx. exact Hy.
+    + split; [|apply IH; exact Hl]. intros y Hy. apply insert_str_In in Hy as [->|Hy]; [|apply Hx; exact Hy].
+      destruct (str_trichotomy s x) as [H|[H|H]]; [congruence| |exact H]. subst s. rewrite str_eqb_refl in E. discriminate.
+Qed.
+Lemma ssorted_NoDup l : ssorted l -> NoDup l.
+Proof.
+  induction l as [|x l IH]; intro H; [constructor|]. destruct H as [Hx Hl]. constructor; [|apply IH; exact Hl].
+  intro Hin. specialize (Hx x Hin). rewrite str_ltb_irrefl in Hx. discriminate.
+Qed.
+Lemma tags_of_sorted vs : ssorted (tags_of vs).
+Proof.
+  unfold tags_of. assert (G : forall acc, ssorted acc -> ssorted (fold_left (fun acc v => insert_str (tag v) acc) vs acc)).
+  { induction vs as [|v vs IH]; intros acc H; [exact H|]. cbn [fold_left]. apply IH. apply insert_str_sorted. exact H. }
+  apply G. exact I.
+Qed.
+
+Lemma partition_count (ts : list str) (vs : list raw) : NoDup ts -> (forall v, In v vs -> In (tag v) ts) ->
+  length (concat (map (fun t => filter (fun v => str_eqb (tag v) t) vs) ts)) = length vs.
+Proof.
+  intros Hnd. induction vs as [|v vs IH]; intro Hin.
+  - clear. induction ts as [|t ts IH]; [reflexivity|]. cbn [map concat filter app]. exact IH.
+  - assert (Hstep : forall ts', NoDup ts' ->
+        length (concat (map (fun t => filter (fun w => str_eqb (tag w) t) (v :: vs)) ts')) =
+        length (concat (map (fun t => filter (fun w => str_eqb (tag w) t) vs) ts')) + (if existsb (str_eqb (tag v)) ts' then 1 else 0)).
+    { clear. induction ts' as [|t ts' IH]; intro Hnd; [reflexivity|]. inversion Hnd as [|? ? Hnt Hnd']; subst.
+      cbn [map concat existsb]. rewrite !app_length, (IH Hnd'). cbn [filter].
+      destruct (str_eqb (tag v) t) eqn:E.
+      - apply str_eqb_true in E. assert (Hex : existsb (str_eqb (tag v)) ts' = false).
+        { destruct (existsb (str_eqb (tag v)) ts') eqn:X; [|reflexivity]. apply existsb_exists in X as (y & Hy & Ey). apply str_eqb_true in Ey. subst. contradiction. }
+        rewrite Hex. cbn [orb length]. lia.
+      - cbn [orb]. lia. }
+    rewrite (Hstep ts Hnd), IH by (intros w Hw; apply Hin; right; exact Hw).
+    assert (Hex : existsb (str_eqb (tag v)) ts = true).
+    { apply existsb_exists. exists (tag v). split; [apply Hin; left; reflexivity|apply str_eqb_refl]. }
+    rewrite Hex. cbn [length]. lia.
+Qed.
+
+Theorem zsh_one_record_per_candidate e m vs :
+  length (concat (map (fun g => map (zrec (fst g)) (snd g)) (zsh_groups e m vs))) = length vs.
+Proof.
+  unfold zsh_groups, each_tag. rewrite !map_map. cbn [fst snd].
+  transitivity (length (concat (map (fun t => filter (fun v => str_eqb (tag v) t) (map zsh_retag vs)) (tags_of (map zsh_retag vs))))).
+  - generalize (tags_of (map zsh_retag vs)). intro ts. induction ts as [|t ts IH]; [reflexivity|].
+    cbn [map concat]. rewrite !app_length, IH, !map_length. reflexivity.
+  - rewrite partition_count; [apply map_length|apply ssorted_NoDup, tags_of_sorted|].
+    intros v Hv. apply tags_of_In. exists v. split; [exact Hv|reflexivity].
+Qed.
